@@ -18,6 +18,8 @@ Dispatch ==
     [] Ev.e = "Open" -> Open(A(1), A(2))
     [] Ev.e = "Load" -> Load(A(1), A(2), A(3))
     [] Ev.e = "Copy" -> Copy(A(1), A(2))
+    [] Ev.e = "AssignCopy" -> AssignCopy(A(1), A(2))
+    [] Ev.e = "AssignMove" -> AssignMove(A(1), A(2))
     [] Ev.e = "Call" -> Call(A(1))
     [] Ev.e = "Destroy" -> Destroy(A(1))
     [] OTHER -> FALSE
